@@ -71,6 +71,15 @@ class SynImpl:
             built = dict(self.cf, dly=self.cf["dly"] - self.cf["dtk"] // 2)
             self.syn = make_synapse(built, self.P, self.shape, self.batch, bool(hdr.get("inplace", False)))
             self.syn.delay = self.cf["dly"] * self.P.tick
+        elif hdr.get("dt_via_setter"):
+            # built with twice the step time and brought to dt through the public setter: pulse height, decay and
+            # history sizes must follow the step time the synapse reports
+            import copy as _copy
+            P2 = _copy.copy(self.P)
+            P2.dt = self.P.dt * 2.0
+            kw = synapse_kwargs(self.cf, self.P, bool(hdr.get("inplace", False)))
+            self.syn = getattr(neural, CLASS[self.cf["sk"]])(self.shape, P2.dt, batch_size=self.batch, **kw)
+            self.syn.dt = self.P.dt
         else:
             self.syn = make_synapse(self.cf, self.P, self.shape, self.batch, bool(hdr.get("inplace", False)))
         self.full = (self.batch,) + self.shape
